@@ -20,7 +20,7 @@ Theorem C11_restart_converges :
   forall (Hc Hf : bytes -> bytes) (A : option oldfile) (B : newfile) (srv_limit : N) (crashed : target),
   wf_new Hc Hf B (t_slots crashed) -> wf_target crashed ->
   let o := update Hc Hf A B srv_limit crashed in
-  (exists e, o_status o = Done e) /\
+  ((exists e, o_status o = Done e) \/ (o_status o = EmptyRange /\ collision Hc)) /\
   (collision Hc \/
    (o_status o = Done 0 /\
     t_hdr (o_target o) = b_hdr B /\ t_extra (o_target o) = [] /\
